@@ -107,30 +107,35 @@ def r1_codec(rep, src):
     lf = src.func(M + ':License.from_str')
     rep.saw_func(lt)
     rep.saw_func(lf)
-    S = symstr.atom('synopsis', NOBOUND + '*[^\\s]' + NOBOUND + '*')
-    T1, T2 = symstr.atom('text1', domainX), symstr.atom('text2', domainX)
-    made = []
+    syn_lang = symstr.L(NOBOUND + '*[^\\s]' + NOBOUND + '*')
 
-    def mk_license(it, args, kw):
-        made.append((args, kw))
-        return it.h.alloc('License', {'synopsis': args[0] if args else kw.get('synopsis'), 'text': (args[1] if len(args) > 1 else kw.get('text', ''))})
-    heap, it = _interp(src, hooks={'cls': None})
-    del heap.hooks['cls']
-    lic = heap.alloc('License', {'synopsis': S, 'text': T1 + '\n\n' + T2}, name='@license')
-    try:
-        text = it.call(H.Closure(lt.node, {}, lic, lt.cls), [])
-        res = it.call(H.Closure(lf.node, {'cls': ('hook', 'mk')}, None, lf.cls), [('hook', 'mk'), text]) if False else None
-        heap.hooks['mk'] = mk_license
-        res = it.call(H.Closure(lf.node, {}, None, lf.cls), [('hook', 'mk'), text])
+    def license_roundtrip(atoms):
+        S, T1, T2 = atoms['synopsis'], atoms['text1'], atoms['text2']
+
+        def mk_license(it_, args, kw):
+            return it_.h.alloc('License', {'synopsis': args[0] if args else kw.get('synopsis'), 'text': (args[1] if len(args) > 1 else kw.get('text', ''))})
+        heap, it = _interp(src, hooks={'mk': mk_license})
+        lic = heap.alloc('License', {'synopsis': S, 'text': T1 + '\n\n' + T2}, name='@license')
+        try:
+            text = it.call(H.Closure(lt.node, {}, lic, lt.cls), [])
+            res = it.call(H.Closure(lf.node, {}, None, lf.cls), [('hook', 'mk'), text])
+        except H.Raised as x:
+            return ('raise', x.exc, x.lineno)
         o = heap.objs[res.name] if isinstance(res, H.Ref) else {}
         ok = isinstance(o.get('synopsis'), (SStr, str)) and symstr.lift(o['synopsis']).same(S) and symstr.lift(o.get('text') or '').same(T1 + '\n\n' + T2)
-        if ok:
-            rep.ok('C17.R1', lf.site, 'License.from_str(License.to_str()) = (synopsis, text)', 'encoded as %r' % (text,))
+        return ('ok' if ok else 'differs', text, (o.get('synopsis'), o.get('text')))
+    what = 'License.from_str(License.to_str()) = (synopsis, text)'
+    results = symstr.explore({'synopsis': syn_lang, 'text1': domainX, 'text2': domainX}, license_roundtrip)
+    badl = [(langs, r) for langs, r in results if r[0] != 'ok']
+    if not badl:
+        rep.ok('C17.R1', lf.site, what, '%d case(s) of (synopsis, "text1\\n\\ntext2")' % len(results))
+    else:
+        langs, r = badl[0]
+        ex = (langs['synopsis'].witness(), '%s\n\n%s' % (langs['text1'].witness(), langs['text2'].witness()))
+        if r[0] == 'raise':
+            rep.fail('C17.R1', lf.site, what, 'raises %s (line %d) for License%r' % (r[1], r[2], ex), where=lf.where)
         else:
-            rep.fail('C17.R1', lf.site, 'License.from_str(License.to_str()) = (synopsis, text)',
-                     'License(synopsis, "text1\\n\\ntext2") is written as %r and read back as (%r, %r)' % (text, o.get('synopsis'), o.get('text')), where=lf.where)
-    except H.Raised as x:
-        rep.fail('C17.R1', lf.site, 'License.from_str(License.to_str()) = (synopsis, text)', 'raises %s (line %d)' % (x.exc, x.lineno), where=lf.where)
+            rep.fail('C17.R1', lf.site, what, 'License%r is written as %r and read back as %r' % (ex, r[1], r[2]), where=lf.where)
 
 
 def r2_converters(rep, src):
